@@ -1208,6 +1208,12 @@ def opDela (rec : St → Sx → Res) (st : St) (args : List Sx) : Res :=
     | Option.none => .error (errA "dangling array")
   | _ => .error (errA "dela: requires two arguments")
 
+/-- one call of `mapa`'s function: key and value are passed quoted -/
+def mapaCall (rec : St → Sx → Res) (fv : Sx) (s : St) (kv : Sx) : Res :=
+  match kv with
+  | .list _ [k, v] => evalClosure rec s fv [.list false [.op .QUOTE, k], .list false [.op .QUOTE, v]]
+  | _ => .error (errA "unreachable")
+
 def opMapa (rec : St → Sx → Res) (st : St) (args : List Sx) : Res :=
   match args with
   | [f, a] => do
@@ -1219,9 +1225,7 @@ def opMapa (rec : St → Sx → Res) (st : St) (args : List Sx) : Res :=
       | .arr r =>
         match st2.arr? r with
         | some kvs => do
-          let (vs, st3) ← mapLoop (fun s kv => match kv with
-            | .list _ [k, v] => evalClosure rec s fv [.list false [.op .QUOTE, k], .list false [.op .QUOTE, v]]
-            | _ => .error (errA "unreachable")) st2 (kvs.map (fun p => .list false [.str p.1, p.2]))
+          let (vs, st3) ← mapLoop (mapaCall rec fv) st2 (kvs.map (fun p => .list false [.str p.1, p.2]))
           pure (.list false vs, st3)
         | Option.none => .error (errA "dangling array")
       | _ => .error (errA "mapa: second argument must be an array")
@@ -1361,15 +1365,18 @@ def opFindG (n : Nat) (rec : St → Sx → Res) (st : St) (args : List Sx) : Res
     pure (.list false found, st2)
   | _ => .error (errA "find/g: expects exactly one argument (find condition)")
 
+/-- the body of `whenever` at one hit: its forms in order, the value of the last -/
+def wheneverBody (rec : St → Sx → Res) (body : List Sx) (s : St) (_ : Sx) : Except Err (Sx × St) := do
+  let (vs, s') ← evalList rec s body
+  let v ← lastOr vs
+  pure (v, s')
+
 def opWhenever (n : Nat) (rec : St → Sx → Res) (st : St) (args : List Sx) : Res :=
   match args with
   | c :: b :: bs =>
     if st.tc.traces.isEmpty then .error (.unsupported "whenever without traces does not terminate") else do
     let prev := indicesOf st.tc.traces
-    let (res, st1) ← scanLoop rec c (fun s (_ : Sx) => do
-      let (vs, s') ← evalList rec s (b :: bs)
-      let v ← lastOr vs
-      pure (v, s')) n st .none
+    let (res, st1) ← scanLoop rec c (wheneverBody rec (b :: bs)) n st .none
     let st2 ← restorePrev st1 prev
     pure (res, st2)
   | _ => .error (errA "whenever: expects exactly two arguments (whenever condition body)")
